@@ -67,11 +67,14 @@ def with_decoy_twins(mod, run, lines):
     share = getattr(mod, "DECOY_TWINS", 0)
     if isinstance(share, dict):
         share = share.get(run.tier, 0)
+    pick = getattr(mod, "DECOY_PICK", None)       # optional: the lines on which a decoy can matter at all
     for ln in lines:
-        yield ln
-        if share and not ln.endswith((W.MARK, D.MARK)) and run.rng.random() < share:
+        # the twin comes BEFORE its plain line: a decoy can only be the first to fill a cache that the plain line has
+        # not filled yet (caches the harness does not know about cannot be emptied)
+        if share and not ln.endswith((W.MARK, D.MARK)) and (pick is None or pick(ln)) and run.rng.random() < share:
             run.count("decoy-twin")
             yield ln + D.MARK
+        yield ln
 
 
 def corpus_lines(prop_id):
